@@ -199,8 +199,8 @@ def build_robot(spec):
             _s0.__name__ = "idle_state"
             body["idle_state"] = sm_state(first=True)(_s0)
             for hook in ("execute", "on_enable", "on_disable"):
-                def h(self, _hook=hook, _site=f"{cname}.{hook}"):
-                    rt.cb(_site)
+                def h(self, _hook=hook, _site=f"{cname}.{hook}", _shared=shared):
+                    rt.cb(f"{self.logger.name}.{_hook}" if _shared else _site)
                     getattr(StateMachine, _hook)(self)
                 h.__name__ = hook
                 body[hook] = h
@@ -208,7 +208,18 @@ def build_robot(spec):
         comp_classes[cname] = type("C_" + cname, bases, body)
     for cname, c in spec["components"].items():
         if c.get("same_class_as"):
-            comp_classes[cname] = comp_classes[c["same_class_as"]]
+            base = comp_classes[c["same_class_as"]]
+            extra = {}
+            for r in c.get("extra_resets", ()):
+                extra[r["attr"]] = will_reset_to(rt.resolve(r["default"]))
+            for fb in c.get("extra_feedbacks", ()):
+                f = _mk_method(fb["name"], None, (fb["hint"], fb.get("nohint_kind", "float"), False), dyn=f"fb.{fb['name']}")
+                h = hint_for(fb)
+                if h is not None:
+                    f.__annotations__ = {"return": h}
+                extra[fb["name"]] = feedback(f) if fb.get("key") is None else feedback(key=fb["key"])(f)
+            # a component whose class DERIVES from another component's class and adds markers / getters of its own
+            comp_classes[cname] = type("C_" + cname + "_derived", (base,), extra) if extra else base
     for cname, c in spec["components"].items():
         ann = {a: comp_classes[a] for a in c.get("inject", ())}
         if ann and not c.get("same_class_as"):
